@@ -200,6 +200,10 @@ def require_guard(ctx, body, oid, rule, pred, desc, start=None, extra_barriers=(
         fcs = failconds(body, g)
         if any(_safe(pred, fc) for fc in fcs):
             ms.append(g)
+    if not ms and not per_iteration:
+        # the guard may live in a workspace helper whose Result is propagated here:
+        # evaluate the helper's unconditional guards under parameter substitution
+        ms = inlined_guards(body, pred)
     fn = body.path
     if not ms:
         ctx.ob(oid, rule, False, fn, '%s:%s' % (body.file, body.line),
@@ -223,6 +227,59 @@ def require_guard(ctx, body, oid, rule, pred, desc, start=None, extra_barriers=(
             return ms
     ctx.ob(oid, rule, True, fn, where, '%s: guard %s' % (desc, show(ms[0]['cond'])[:200]))
     return ms
+
+
+def subst(e, m):
+    """replace ('var', name) leaves by m[name]"""
+    if not isinstance(e, tuple):
+        return e
+    if e and e[0] == 'var' and len(e) == 2 and e[1] in m:
+        return m[e[1]]
+    return tuple(subst(x, m) if isinstance(x, tuple) else x for x in e)
+
+
+def inlined_guards(body, pred, depth=1):
+    """pseudo-guards located at the `?` of a checked call to a workspace function
+    F, for every guard of F that lies on all of F's non-failing paths and whose
+    failing condition, with F's parameters replaced by the call's arguments,
+    satisfies pred"""
+    prog = body.prog
+    out = []
+    for g in body.guards():
+        cond = g['cond']
+        if cond[0] != 'discr' or not g['fail']:
+            continue
+        fcs0 = failconds(body, g)
+        bad = set()
+        for fc in fcs0:
+            if fc[0] == 'isvariant':
+                bad |= set(fc[2])
+        if not (bad & {'Break', 'Err'}):
+            continue
+        for c in strip_result(cond[1]):
+            tgt = c[2] or c[1]
+            if tgt not in prog.bodies:
+                continue
+            outer = prog.bodies[tgt]
+            f = outer
+            inner = prog.bodies.get(tgt + '::{closure#0}')
+            if inner is not None and inner.kind == 'coroutine' and outer.builds_only(inner.path):
+                f = inner
+            pn = outer.param_names()
+            m = {name: c[3][i - 1] for i, name in pn.items() if i - 1 < len(c[3])}
+            for gf in f.guards():
+                if not gf['fail']:
+                    continue
+                okr, _ = f.ok_reachable(avoid_blocks=[gf['block']])
+                if okr:
+                    continue
+                fcs = [subst(fc, m) for fc in failconds(f, gf)]
+                if any(_safe(pred, fc) for fc in fcs):
+                    pg = dict(g)
+                    pg['cond'] = subst(gf['cond'], m)
+                    pg['inlined_from'] = f.path
+                    out.append(pg)
+    return out
 
 
 def loop_guard_bypass(body, ms, extra_barriers=()):
